@@ -108,7 +108,8 @@ def check_relay(r):
     for a in r["a"]:
         if not A_RE.match(a):
             raise ValueError("bad a line value %r" % (a,))
-    if not r["flags"] or any(f not in KNOWN_FLAGS for f in r["flags"]) or \
+    # the flag list may be empty: dir-spec's line is "s" SP Flags, i.e. "s " with the blank
+    if any(f not in KNOWN_FLAGS for f in r["flags"]) or \
             len(set(r["flags"])) != len(r["flags"]):
         raise ValueError("bad flags %r" % (r["flags"],))
     if r["bw"] is not None and not (isinstance(r["bw"], int) and r["bw"] >= 0):
@@ -181,7 +182,9 @@ def parse_document(lines):
         elif kw == "s":
             if stage != "r":
                 raise ValueError("misplaced s line %r" % (ln,))
-            cur["flags"] = rest.split(" ")
+            if not ln.startswith("s "):
+                raise ValueError("s line without the blank: %r" % (ln,))
+            cur["flags"] = rest.split(" ") if rest else []
             stage = "s"
         elif kw == "w":
             if stage != "s" or not rest.startswith("Bandwidth="):
